@@ -339,6 +339,29 @@ func c18(x *mon.Ctx) {
 			p2.Rtmrs[i] = variant(r, "last-differs", sq.Rtmrs[i])
 			add(base, world.LBase, "policy-mismatch", fmt.Sprintf("rtmr%d-after-nil-entries", i), p2, true, false)
 		}
+		// the right values in the wrong registers (shifted down / up, rotated, reversed): every register the log measures must match
+		for name, perm := range map[string][4]int{"shifted-down": {3, 0, 1, 2}, "shifted-up": {1, 2, 3, 0}, "reversed": {3, 2, 1, 0}, "rotated-0-1-2": {1, 2, 0, 3}, "0<->2": {2, 1, 0, 3}} {
+			w := base.Clone()
+			var orig [4][]byte
+			for i := 0; i < 4; i++ {
+				orig[i] = append([]byte{}, w.Q.Body[328+48*i:328+48*(i+1)]...)
+			}
+			must := false
+			for i := 0; i < 4; i++ {
+				copy(w.Q.Body[328+48*i:], orig[perm[i]])
+				if measured[i] && !bytes.Equal(orig[perm[i]], orig[i]) {
+					must = true
+				}
+			}
+			w.Requote()
+			add(w, world.LBase, "rtmr-permuted", name, ref.Policy{}, must, false)
+			if name == "shifted-down" { // with arbitrary bytes in the register that no longer has a source
+				w2 := w.Clone()
+				r.Read(w2.Q.Body[328 : 328+48])
+				w2.Requote()
+				add(w2, world.LBase, "rtmr-permuted", name+"/random-first", ref.Policy{}, must, false)
+			}
+		}
 		// a quote with RTMR contents swapped between registers
 		{
 			w := base.Clone()
